@@ -215,7 +215,11 @@ func c18Ops() []c18Op {
 			if err != nil {
 				return "error"
 			}
-			return fmt.Sprint("in-range=", n.Cmp(two128) >= 0 && n.Cmp(two2048) < 0)
+			whose := ""
+			if t.setConst != nil { // scripted source: the number is a function of (thread, call index)
+				whose = " n=" + engine.Hex(n.Bytes()[:8])
+			}
+			return fmt.Sprint("in-range=", n.Cmp(two128) >= 0 && n.Cmp(two2048) < 0) + whose
 		}},
 		{"enum-strings", func(t *tctx) string {
 			var sb strings.Builder
@@ -270,7 +274,13 @@ func c18Ops() []c18Op {
 			t.hold()
 			want := ref.DeriveIKE(ref.PRFs[t.k%3], ref.Integs[1], 16, univ.Pat(32, t.k), pub, 1, 2)
 			sig, _ := checkSA(sa, want, ref.PRFs[t.k%3], ref.Integs[1])
-			return "sa " + sig
+			// the public value belongs to this thread's exponent (its own random stream): a value computed for
+			// somebody else's request is a consistent but foreign result
+			whose := ""
+			if t.setConst != nil {
+				whose = " pub=" + engine.Hex(pub[:8])
+			}
+			return "sa " + sig + whose
 		}},
 		{"unprotect-refused/hold/error-text", func(t *tctx) string {
 			// a refused datagram: the error value is kept by the caller and read again later
